@@ -111,7 +111,8 @@ example : (srun { listening := true, stopping := false, conns := 0, acceptors :=
 
 /-- C20.11  the read deadlines of `deadlineMs` are the ones in the code: every waiting loop arms the deadline the model
 gives its state (command line 30 min, literal 5 min with a 100 ms drain, AUTHENTICATE response 30 s, IDLE poll 50 ms, SASL
-30 s at both reads, LMTP the configured `timeout` at both reads), no deadline is ever lifted (`time.Time{}`), and nothing
+30 s at both reads, LMTP the configured `timeout` at both waits — as a deadline for reads **and writes**, so that a client
+that stops reading cannot hold the session in a write), no deadline is ever lifted (`time.Time{}`), and nothing
 else in the services touches a deadline. -/
 theorem plan_deadlines :
     Raven.Plan.deadlinesAt (b!"server.handleClient") = (deadlineMs 300 .imapCmd).toList.map Int.ofNat ∧
@@ -119,7 +120,8 @@ theorem plan_deadlines :
     Raven.Plan.deadlinesAt (b!"auth.HandleAuthenticate") = (deadlineMs 300 .imapAuthWait).toList.map Int.ofNat ∧
     Raven.Plan.deadlinesAt (b!"extension.HandleIdle") = (deadlineMs 300 .imapIdle).toList.map Int.ofNat ∧
     Raven.Plan.deadlinesAt (b!"sasl.Server.handleConnection") = ((deadlineMs 300 .saslCmd).toList ++ (deadlineMs 300 .saslCmd).toList).map Int.ofNat ∧
-    ((Raven.Gen.deadlines.filter (fun d => d.at' = (b!"lmtp.Session.Handle"))).map (fun d => (d.ms, d.var))) = [(-1, (b!"timeout")), (-1, (b!"timeout"))] ∧
+    ((Raven.Gen.deadlines.filter (fun d => d.at' = (b!"lmtp.Session.Handle"))).map (fun d => (d.call, d.ms, d.var))) =
+      [((b!"SetDeadline"), -1, (b!"timeout")), ((b!"SetDeadline"), -1, (b!"timeout"))] ∧
     Raven.Gen.deadlines.all (fun d => d.ms ≠ 0) = true ∧
     Raven.Gen.deadlines.length = 11 := by
   decide
